@@ -17,6 +17,7 @@
 //@ ob dac_fields entry=h_fields tier=C props=C17,C19 kind=statement foreach=FW:1-32 quick=FW:1,7,8,9,31,32
 //@ ob dac_ctor_access entry=h_dac tier=B props=C17,C01 kind=statement grid=dac defs=-DNEW_ARRAY_CAP=8 timeout=1200 replay=dac
 //@ ob dac_saveload entry=h_dac_sl tier=B props=C17,C06,C08 kind=statement grid=dac gridonly=s21r8+s312r9+s1r1 defs=-DNEW_ARRAY_CAP=8 timeout=1200 replay=dac
+#define VSTREAM_LOOP_COPY
 #include "vstream.h"
 //@ structs
 /* TRUSTED: BitSequenceRG is replaced by its specification here: the constructor keeps a copy of the first n bits, rank1 is the plain count of ones in [0,i]. The real BitSequenceRG is checked against the same plain definition in unit rg (bounded). save/load of the bitmap are checked there too; here they transfer the object pointer. */
